@@ -127,6 +127,10 @@ def opt(v):
     return "None" if v is None else "(Some %s)" % zl(v)
 
 
+def tlist(items, ty):
+    return "(@nil %s)" % ty if not items else vplib.coq_list(items)
+
+
 def coq_case(case, p):
     """(input term, expected output term) for `mismatches zlist_eqb case_code_fs`"""
     sf, sb, gf, gb, acc = case["thr"]
@@ -159,7 +163,7 @@ def coq_case(case, p):
         if rec["end"] is not None:
             outs += ["7%Z", zl(rec["end"])]
     inp = "((%s, %s, %s, %s), %s)" % (w, zl(case["f0"]), vplib.blit(case["su"] == 1),
-                                     vplib.coq_list(wops), vplib.coq_list(fs))
+                                     tlist(wops, "wop"), tlist(fs, "Z"))
     return inp, vplib.coq_list(outs + ["0%Z"] + fsd)
 
 
